@@ -5,6 +5,7 @@
 #include <qpdf/BufferInputSource.hh>
 #include <qpdf/QPDFExc.hh>
 #include <qpdf/QPDFObjectHandle.hh>
+#include <qpdf/QPDF.hh>
 #include <qpdf/QPDFTokenizer.hh>
 #include <stdexcept>
 
@@ -133,4 +134,48 @@ static Reg r_strunparsebin("strunparsebin", [](std::vector<std::string> const& a
 // nameunparse <hex name incl. leading slash> : Name::normalize
 static Reg r_nameunparse("nameunparse", [](std::vector<std::string> const& a) -> std::string {
     return hex(QPDFObjectHandle::newName(unhex(a.at(0))).unparse());
+});
+
+// objparse <hex> : QPDFObjectHandle::parse(context, text) on an empty QPDF; the value tree in canonical form
+// (dictionary keys in std::map order, null-valued entries skipped, indirect references not resolved), the
+// number of warnings, or the class of the exception.
+namespace {
+    std::string show_obj(QPDFObjectHandle o, int depth) {
+        if (depth > 600) return "?deep";
+        if (o.isIndirect()) return "ref:" + std::to_string(o.getObjectID()) + ":" + std::to_string(o.getGeneration());
+        if (o.isNull()) return "null";
+        if (o.isBool()) return o.getBoolValue() ? "b:1" : "b:0";
+        if (o.isInteger()) return "i:" + std::to_string(o.getIntValue());
+        if (o.isReal()) return "r:" + hex(o.getRealValue());
+        if (o.isString()) return "s:" + hex(o.getStringValue());
+        if (o.isName()) { std::string n = o.getName(); return "n:" + hex(n.size() ? n.substr(1) : n); }
+        if (o.isArray()) {
+            std::string r = "[ ";
+            int n = o.getArrayNItems();
+            for (int i = 0; i < n; ++i) r += show_obj(o.getArrayItem(i), depth + 1) + " ";
+            return r + "]";
+        }
+        if (o.isDictionary()) {
+            std::string r = "<< ";
+            for (auto const& [k, v]: o.getDictAsMap()) {
+                if (!v.isIndirect() && v.isNull()) continue;
+                r += "n:" + hex(k.size() ? k.substr(1) : k) + " " + show_obj(v, depth + 1) + " ";
+            }
+            return r + ">>";
+        }
+        if (o.isOperator()) return "op:" + hex(o.getOperatorValue());
+        return std::string("?type:") + o.getTypeName();
+    }
+}
+static Reg r_objparse("objparse", [](std::vector<std::string> const& a) -> std::string {
+    std::string in = unhex(a.at(0));
+    QPDF q;
+    q.emptyPDF();
+    q.setSuppressWarnings(true);
+    try {
+        auto o = QPDFObjectHandle::parse(&q, in, "drv");
+        return show_obj(o, 0) + " w=" + std::to_string(q.getWarnings().size());
+    } catch (QPDFExc const& e) {
+        return "exc:" + hex(e.getMessageDetail()) + " w=" + std::to_string(q.getWarnings().size());
+    }
 });
